@@ -1,8 +1,106 @@
-(* C18 property theorems: statements only, each closed by `exact`, with Print Assumptions. *)
+(* C18 property theorems: statements only, each closed by `exact`, with Print Assumptions.
+   Every generator is a pure function of the numbers drawn; theorems are about the exact-rational
+   instance of coq/C18/Model.v unless they quantify over the index list itself. *)
 From Coq Require Import ZArith QArith List Bool.
-From QE Require Import Base.Num C16.Model C18.Model C18.Proofs.
+From QE Require Import Base.Num Base.Cases C16.Model C18.Model C18.Proofs.
 Import ListNotations.
+Local Open Scope Q_scope.
 
-Theorem C18_updl_length : forall (A : Type) (a : list A) i v, length (updl a i v) = length a.
-Proof. exact @updl_length. Qed.
-Print Assumptions C18_updl_length.
+(* probvec: for ANY draws in [0,1) (zero and equal draws included) the output is a point of the unit simplex *)
+Theorem C18_probvec_simplex : forall r : list Q, Forall (fun x => 0 <= x < 1) r ->
+  Forall (fun x => 0 <= x) (@probvec_row Q NumQ r) /\ qsum (@probvec_row Q NumQ r) == 1 /\
+  length (@probvec_row Q NumQ r) = S (length r).
+Proof. exact probvec_simplex. Qed.
+Print Assumptions C18_probvec_simplex.
+
+(* pool-swap sampling: whatever produced the indices (exact or binary64 product), if idx_j < n-j for
+   every j then the k outputs are distinct and lie in [0,n) *)
+Theorem C18_swr_distinct : forall n idxs, (length idxs <= n)%nat ->
+  (forall j, (j < length idxs)%nat -> (nth j idxs 0 < n - j)%nat) ->
+  length (swr n idxs) = length idxs /\ NoDup (swr n idxs) /\
+  Forall (fun v => (0 <= v < Z.of_nat n)%Z) (swr n idxs).
+Proof. exact swr_spec. Qed.
+Print Assumptions C18_swr_distinct.
+
+(* in exact arithmetic floor(r (n-j)) < n-j for every r in [0,1): the whole sampler is correct *)
+Theorem C18_swr_exact_draws : forall n rs, (length rs <= n)%nat -> Forall (fun r => 0 <= r < 1) rs ->
+  length (swr_Q n rs) = length rs /\ NoDup (swr_Q n rs) /\
+  Forall (fun v => (0 <= v < Z.of_nat n)%Z) (swr_Q n rs).
+Proof. exact swr_Q_spec. Qed.
+Print Assumptions C18_swr_exact_draws.
+
+(* the binary64 index for the largest uniform 1-2^-53: bound checked for every pool size up to 4096
+   (finite domain in the statement; the general binary64 fact is NOT proved) *)
+Theorem C18_idx_binary64_extreme : forall m, In m (seq 1 4096) ->
+  (idx_F m max_uniform < m)%nat.
+Proof.
+  intros m H.
+  assert (E : forallb (fun m => Nat.ltb (idx_F m max_uniform) m) (seq 1 4096) = true) by (vm_compute; reflexivity).
+  rewrite forallb_forall in E. apply Nat.ltb_lt. apply E. exact H.
+Qed.
+Print Assumptions C18_idx_binary64_extreme.
+
+(* a row of random_stochastic_matrix with k < n (u1: k-1 draws for probvec, u2: k draws for the columns):
+   k distinct columns in range, zero elsewhere, the probvec values at those columns, non-negative, sum 1 *)
+Theorem C18_k_sparse_rows : forall n (u1 u2 : list Q),
+  S (length u1) = length u2 -> (length u2 <= n)%nat ->
+  Forall (fun r => 0 <= r < 1) u1 -> Forall (fun r => 0 <= r < 1) u2 ->
+  let cols := map Z.to_nat (swr_Q n u2) in
+  let row := @place Q NumQ n cols (@probvec_row Q NumQ u1) in
+  length row = n /\ NoDup cols /\ length cols = length u2 /\ Forall (fun c => (c < n)%nat) cols /\
+  (forall c, ~ In c cols -> nth c row 0 = 0) /\
+  (forall t, (t < length cols)%nat -> nth (nth t cols 0%nat) row 0 = nth t (@probvec_row Q NumQ u1) 0) /\
+  (forall c, 0 <= nth c row 0) /\
+  qsum row == 1.
+Proof. exact rsm_row_spec. Qed.
+Print Assumptions C18_k_sparse_rows.
+
+(* finding D8 on the model: a zero draw gives a zero spacing, so fewer than k strictly positive entries *)
+Theorem C18_probvec_zero_spacing_refuted : exists r : list Q,
+  Forall (fun x => 0 <= x < 1) r /\ Qeq_bool (nth 0 (@probvec_row Q NumQ r) 1) 0 = true.
+Proof. exists [0; 1 # 2]. split; [repeat constructor; vm_compute; congruence | vm_compute; reflexivity]. Qed.
+Print Assumptions C18_probvec_zero_spacing_refuted.
+
+(* random_tournament_graph kernel: every unordered pair gets exactly one orientation, no loops, nodes in range *)
+Theorem C18_tournament_spec : forall n rs, (length (pairs n) <= length rs)%nat ->
+  let edges := tournament_edges n rs in
+  (forall a b, In (a, b) edges -> a <> b /\ (a < n)%nat /\ (b < n)%nat) /\
+  (forall i j, (i < j < n)%nat ->
+     (In (i, j) edges /\ ~ In (j, i) edges) \/ (~ In (i, j) edges /\ In (j, i) edges)).
+Proof. exact tournament_spec. Qed.
+Print Assumptions C18_tournament_spec.
+
+(* Blotto kernel = definition: entry [i][j] of player 0 and entry [j][i] of player 1 are the sums over
+   hills of the hill's value to the side with strictly more troops, half of it on ties *)
+Theorem C18_blotto_payoff_spec : forall actions values i j,
+  (i < length actions)%nat -> (j < length actions)%nat ->
+  let a := fun t => nth t actions [] in
+  let '(P0, P1) := blotto_payoffs actions values in
+  nth j (nth i P0 []) 0 == qsum (map blotto_share0 (combine (combine (a i) (a j)) values)) /\
+  nth i (nth j P1 []) 0 == qsum (map blotto_share1 (combine (combine (a i) (a j)) values)).
+Proof. exact blotto_payoff_spec. Qed.
+Print Assumptions C18_blotto_payoff_spec.
+
+Theorem C18_ranking_payoff_spec : forall n s0 s1 c0 c1 i j, (i < n)%nat -> (j < n)%nat ->
+  let sc := fun (s : list Z) t => nth t s 0%Z in
+  let cost := fun (c : list Q) t => match t with O => 0 | S t' => - nth t' c 0 end in
+  let '(P0, P1) := ranking_payoffs n s0 s1 c0 c1 in
+  nth j (nth i P0 []) 0 = (if (sc s0 i >? sc s1 j)%Z then cost c0 i + 1
+                           else if (sc s0 i <? sc s1 j)%Z then cost c0 i else cost c0 i + 1 / 2) /\
+  nth i (nth j P1 []) 0 = (if (sc s0 i >? sc s1 j)%Z then cost c1 j
+                           else if (sc s0 i <? sc s1 j)%Z then cost c1 j + 1 else cost c1 j + 1 / 2).
+Proof. exact ranking_payoff_spec. Qed.
+Print Assumptions C18_ranking_payoff_spec.
+
+Theorem C18_unit_vector_spec : forall n ones i j, (i < n)%nat -> (j < n)%nat ->
+  nth j (nth i (unit_vector_payoff0 n ones) []) 0 = if (Z.of_nat i =? nth j ones (-1)%Z)%Z then 1 else 0.
+Proof. exact unit_vector_spec. Qed.
+Print Assumptions C18_unit_vector_spec.
+
+(* hypotheses are satisfiable by concrete non-trivial objects *)
+Example ex_probvec : Qs_eqb (@probvec_row Q NumQ [1 # 2; 1 # 8; 3 # 4]) [1 # 8; 3 # 8; 1 # 4; 1 # 4] = true.
+Proof. vm_compute. reflexivity. Qed.
+Example ex_swr : Zs_eqb (swr_Q 5 [9 # 10; 0; 1 # 2]) [4; 0; 1]%Z = true.
+Proof. vm_compute. reflexivity. Qed.
+Example ex_tournament : tournament_edges 3 [0; 1 # 2; 1 # 4] = [(0, 1); (2, 0); (1, 2)]%nat.
+Proof. vm_compute. reflexivity. Qed.
